@@ -96,3 +96,34 @@ def run(ctx):
         ctx.floor('container ids returned by the sniffer', len(consts), 8, rule='C11-D3')
         for c in sorted(consts):
             ctx.ob('C11-D3', CFS, 'returns Some("%s")' % c, 'is the first entry of a handler SUPPORTED_TYPES table (a container id with a reader)', c in firsts, detail=firsts.get(c, 'no handler table starts with this id'))
+        # ---- D4 magic numbers: the published signatures of the containers must be among the byte strings the sniffer compares the header with
+        # (independent table from the format specifications; the sniffer's own table is not the reference)
+        MAGIC = [
+            ('png', 0, (137, 80, 78, 71, 13, 10, 26, 10)),
+            ('gif', 0, tuple(b'GIF')), ('gif 87a', 3, tuple(b'87a')), ('gif 89a', 3, tuple(b'89a')),
+            ('tiff little-endian', 0, (73, 73, 42, 0)), ('tiff big-endian', 0, (77, 77, 0, 42)),
+            ('bigtiff little-endian', 0, (73, 73, 43, 0)), ('bigtiff big-endian', 0, (77, 77, 0, 43)),
+            ('jpeg xl container', 0, (0, 0, 0, 12, 74, 88, 76, 32, 13, 10, 135, 10)),
+            ('riff', 0, tuple(b'RIFF')), ('iso bmff ftyp', 4, tuple(b'ftyp')), ('flac', 0, tuple(b'fLaC')), ('id3', 0, tuple(b'ID3')), ('pdf', 0, tuple(b'%PDF')),
+        ]
+        found = set()
+        for bi, t in fn.calls():
+            if not (t['fd'].endswith('PartialEq::eq') or t['fd'].endswith('starts_with')):
+                continue
+            term = T.call_term(fn, bi)
+            m = re.search(r'Range\((\d+),(\d+)\)\),(.*)\)$', term)
+            off = int(m.group(1)) if m else 0
+            val = m.group(3) if m else term.split(',', 1)[-1].rstrip(')')
+            mb = re.fullmatch(r'b"(.*)"', val)
+            if mb:
+                by = tuple(mb.group(1).encode('latin1'))
+            elif re.fullmatch(r'\((\d+,)*\d+\)', val):
+                by = tuple(int(x) for x in val.strip('()').split(','))
+            else:
+                continue
+            found.add((off, by))
+        ctx.floor('header comparisons with byte-string constants in the sniffer', len(found), 12, rule='C11-D4')
+        for nm, off, by in MAGIC:
+            ctx.ob('C11-D4', CFS, 'signature of ' + nm, 'compared at offset %d with the bytes %s' % (off, ' '.join('%02X' % x for x in by)), (off, by) in found,
+                   detail='' if (off, by) in found else 'sniffer compares offset %d with: %s' % (off, sorted(' '.join('%02X' % x for x in b2) for o2, b2 in found if o2 == off)[:8]))
+
